@@ -309,6 +309,78 @@ def rule_content_encoding(ck):
         ck.ob("C30.content-encoding", fi, r.ast, _raises_input_error(r.ast), "an encoded body is rejected with HTTPInputError")
 
 
+def rule_byte_exact(ck):
+    """Field/file content reaches the result dictionaries byte for byte: only slices at delimiter positions."""
+    from ..x_exact import check_exact, slice_delimiters
+    fi = ck.func(HU, PMF)
+    params = fi.params()
+    ck.need(len(params) >= 4, "parse_multipart_form_data(boundary, data, arguments, files) signature changed")
+    boundary, data, argsp, filesp = params[:4]
+    facts = must_facts(fi.cfg)
+    sinks = []
+    for nd, c in fi.cfg.find(lambda x: isinstance(x, ast.Call) and isinstance(x.func, ast.Attribute) and x.func.attr in ("append", "extend", "insert") and x.args):
+        root = x_root(c.func.value)
+        if root == argsp:
+            sinks.append((nd, c, c.args[-1], "field value stored in %s" % argsp))
+        elif root == filesp:
+            a = c.args[-1]
+            if isinstance(a, ast.Call) and q.call_attr(a) == "HTTPFile":
+                b = q.kwarg(a, "body")
+                if b is None:
+                    raise AnalysisError("C30.byte-exact: HTTPFile(..) without body= keyword")
+                sinks.append((nd, c, b, "uploaded file body stored in %s" % filesp))
+            else:
+                raise AnalysisError("C30.byte-exact: unknown object stored in %s" % filesp)
+    ck.floor("C30.byte-exact", len(sinks), 2, "content sinks (arguments / files)")
+    # field names / file names come out of the parsed Content-Disposition parameters unchanged
+    dps = [a.targets[0].elts[1].id for a in q.walk_body(fi.node) if isinstance(a, ast.Assign) and isinstance(a.value, ast.Call) and q.call_attr(a.value) == "_parse_header" and isinstance(a.targets[0], ast.Tuple) and len(a.targets[0].elts) == 2 and isinstance(a.targets[0].elts[1], ast.Name)]
+    ck.need(len(set(dps)) == 1, "C30.byte-exact: '<disposition>, <params> = _parse_header(..)' not found")
+    dp = dps[0]
+    nn = 0
+    for nd, c in fi.cfg.find(lambda x: isinstance(x, ast.Call) and isinstance(x.func, ast.Attribute) and x.func.attr == "setdefault" and q.dotted(x.func.value) in (argsp, filesp) and x.args):
+        check_exact(ck, "C30.byte-exact", fi, c.args[0], [dp], "field name used as key of %s" % q.dotted(c.func.value), passthrough={"get": -1}, site=c)
+        nn += 1
+    for nd, c in fi.cfg.find(lambda x: isinstance(x, ast.Call) and q.call_attr(x) == "HTTPFile"):
+        fn = q.kwarg(c, "filename")
+        if fn is None:
+            raise AnalysisError("C30.byte-exact: HTTPFile(..) without filename=")
+        check_exact(ck, "C30.byte-exact", fi, fn, [dp], "uploaded file name", passthrough={"get": -1}, site=c)
+        nn += 1
+    ck.floor("C30.byte-exact", nn, 3, "name sinks")
+    slices_on_path = []
+    for nd, c, sink, what in sinks:
+        steps = check_exact(ck, "C30.byte-exact", fi, sink, [data], what, site=c)
+        slices_on_path += [s.node for s in steps if s.kind == "slice"]
+    # every slice of the function (content path, header text, quoted boundary) cuts exactly at a tested delimiter
+    n = 0
+    for nd, sub in fi.cfg.find(lambda x: isinstance(x, ast.Subscript) and isinstance(x.slice, ast.Slice)):
+        for ok, text in slice_delimiters(fi, sub, facts[nd.id]):
+            n += 1
+            ck.ob("C30.byte-exact", fi, sub, ok, "%s: %s" % (q.unparse(sub), text))
+    ck.floor("C30.byte-exact", n, 6, "slice-bound judgements")
+    ck.need(len(slices_on_path) >= 2, "C30.byte-exact: expected the content to be cut out of the body by at least two slices")
+    # urlencoded: blank values are fields too
+    pba = ck.func(HU, PBA)
+    for c in [c for c in q.calls(pba.node) if q.call_attr(c) in ("parse_qs_bytes", "parse_qs", "parse_qsl")]:
+        kb = q.kwarg(c, "keep_blank_values")
+        ck.ob("C30.byte-exact", pba, c, kb is not None and q.is_const(kb, True), "urlencoded fields with an empty value are kept (keep_blank_values=True)")
+        ck.ob("C30.byte-exact", pba, c, c.args and q.dotted(c.args[0]) == pba.params()[1], "the urlencoded parser is given the body itself (no strip/decode before parsing)")
+
+
+def x_root(e):
+    """Root name of a receiver chain like ``arguments.setdefault(name, [])``."""
+    while True:
+        if isinstance(e, ast.Call):
+            e = e.func
+        elif isinstance(e, ast.Attribute):
+            e = e.value
+        elif isinstance(e, ast.Subscript):
+            e = e.value
+        else:
+            break
+    return e.id if isinstance(e, ast.Name) else None
+
+
 def run(ck):
     ck.rule("C30.only-input-error", "parse_body_arguments: fallible operations only inside try/except Exception -> raise HTTPInputError; every other raise is HTTPInputError")
     ck.rule("C30.limits", "parse_multipart_form_data: len(parts) <= config.max_parts dominates the part loop; eoh <= config.max_part_header_size dominates HTTPHeaders.parse of the part")
@@ -319,6 +391,8 @@ def run(ck):
     n = rule_limits(ck)
     ck.floor("C30.limits", n, 8, "limit/config obligations")
     rule_content_encoding(ck)
+    ck.rule("C30.byte-exact", "field/file content is cut out of the body only by slices whose bounds are the positions/lengths of the delimiters actually tested (first CRLFCRLF, trailing CRLF), never through strip/replace/decode/join; blank urlencoded values kept")
+    rule_byte_exact(ck)
 
 
 # ---------------------------------------------------------------------------
@@ -377,6 +451,15 @@ def _hoist_out_of_try(root):
 
 
 MUTANTS = [
+    ("seeded C30-adv1: value = part[eoh + 4:].rstrip(b'\\r\\n') (trailing CR/LF of the content lost)", _h(PMF, replace_expr(lambda n: isinstance(n, ast.Subscript) and isinstance(n.slice, ast.Slice) and "eoh + 4" in _src(n), lambda n: parse_expr("part[eoh + 4:].rstrip(b'\\r\\n')"))), "C30.byte-exact"),
+    ("byte-exact: header/body separator searched from the right (rfind): content containing a blank line is cut", _h(PMF, replace_expr(lambda n: isinstance(n, ast.Attribute) and n.attr == "find" and "part" in _src(n), lambda n: ast.Attribute(value=n.value, attr="rfind", ctx=ast.Load()))), "C30.byte-exact"),
+    ("byte-exact: content starts 2 bytes after the separator position (eoh + 2)", _h(PMF, replace_expr(lambda n: isinstance(n, ast.Constant) and n.value == 4, lambda n: ast.Constant(value=2))), "C30.byte-exact"),
+    ("byte-exact: trailing CRLF no longer tested before dropping 2 bytes", _h(PMF, replace_expr(lambda n: isinstance(n, ast.BoolOp) and "endswith" in _src(n) and "disposition" in _src(n), lambda n: n.values[0])), "C30.byte-exact"),
+    ("byte-exact: file body decoded and re-encoded", _h(PMF, replace_expr(lambda n: isinstance(n, ast.keyword) and n.arg == "body", lambda n: ast.keyword(arg="body", value=parse_expr("value.decode('utf-8', 'replace').encode('utf-8')")))), "C30.byte-exact"),
+    ("byte-exact: field names stripped", _h(PMF, replace_stmt(lambda st: isinstance(st, ast.Assign) and _src(st) == "name = disp_params['name']", lambda st: [parse_stmt("name = disp_params['name'].strip()")])), "C30.byte-exact"),
+    ("byte-exact: file names lower-cased", _h(PMF, replace_expr(lambda n: isinstance(n, ast.keyword) and n.arg == "filename", lambda n: ast.keyword(arg="filename", value=parse_expr("disp_params['filename'].lower()")))), "C30.byte-exact"),
+    ("byte-exact: urlencoded blank values dropped", _h(PBA, replace_expr(lambda n: isinstance(n, ast.keyword) and n.arg == "keep_blank_values", lambda n: ast.keyword(arg="keep_blank_values", value=ast.Constant(value=False)))), "C30.byte-exact"),
+    ("byte-exact: urlencoded body stripped before parsing", _h(PBA, replace_expr(lambda n: isinstance(n, ast.Call) and q.call_attr(n) == "parse_qs_bytes", lambda n: ast.Call(func=n.func, args=[parse_expr("body.strip()")], keywords=n.keywords))), "C30.byte-exact"),
     ("multipart: handler narrowed to ValueError (LookupError from an unknown RFC 2231 charset escapes)", _h(PBA, _narrow(1)), "C30.only-input-error"),
     ("urlencoded: handler narrowed to ValueError", _h(PBA, _narrow(0)), "C30.only-input-error"),
     ("multipart: try/except removed around the multipart parser", _h(PBA, _hoist_out_of_try), "C30.only-input-error"),
